@@ -103,6 +103,9 @@ def run(ck, facts, tier):
         ck.fail(r4, "create_initial_edges", "rule could not be established (%s)" % e)
     try:
         m0 = cel.Ev(facts, hooks=hk).apply_fn(FX + "create_initial_fx_array", [CUR, PAIRS, RATES], 0)
+        # the leading `assert_eq!(fx_pairs.len(), fx_rates.len())` may abort: the returning path is judged
+        live = [v for _, v in paths.flatten(cel.strip_early(m0)) if not (isinstance(v, Sym) and v.tag[:1] == ("diverges",))]
+        m0 = live[0] if len(live) == 1 else m0
         w = writes_of(m0) if isinstance(m0, Arr) else {}
         # enumerate(): i0 indexes both the pair list and the quote list
         rate_i = Poly.atom(("call", "index", (vkey(RATES), Poly.atom("i0").key())))
